@@ -21,7 +21,7 @@ Mode(i) == IF i % 2 = 0 THEN "nil" ELSE "pre"
 Setup(s, r, i) == << SaNew("S", SuiteSeq[s], KeysOf(SuiteSeq[s], 1)), SaNew("R", SuiteSeq[s], KeysOf(SuiteSeq[s], 1)), SaNew("X", SuiteSeq[s], KeysOf(SuiteSeq[s], 2)),
                      ProtectStep("C01", "S", r, M(i), "system") >>
 ExpAt(o) == IF o = 16 THEN PlainExp ELSE RejectExp
-Try(sa, r, w, md, exp) == UnprotectStep("C02", sa, ~r, w, md, exp)
+Try(sa, r, w, md, exp) == UnprotectCaps("C02", sa, ~r, w, md, exp)
 
 Chunks(n) == 0..((n - 1) \div 16)
 Parts(s, i) == { << "flip", c >> : c \in Chunks(N(s, i) - IL(s)) } \cup { << "prefix", c >> : c \in Chunks(N(s, i)) }
